@@ -1,4 +1,4 @@
 ---------------------------- MODULE MC_ErrChain ----------------------------
 EXTENDS ErrChain, TLC, Json
-Emit == PrintT(<<"CASE", ToJson([root |-> root, layers |-> layers, nil |-> IsNil, text |-> Text])>>)
+Emit == PrintT(<<"CASE", ToJson([root |-> root, layers |-> layers, depth |-> Depth, nil |-> IsNil, text |-> Text])>>)
 =============================================================================
